@@ -1124,10 +1124,22 @@ package connect
 //@   ensures res == errMessage(e)
 //@   assigns nothing
 
-//@ trusted func (*Error).detailsAsAny(e) (res, err)
+// anyOf(d): the *anypb.Any that anypb.New makes of a detail that is not one already.
+//@ spec anyOf(d ref) ref
+//@ trusted func anypb.New(src) (res, err)
 //@   assigns nothing
-//@   ensures err == nil ==> len(res) == len(e.details)
-//@   doc: "wraps every detail in an *anypb.Any, keeping the order (body not verified: anypb is external)"
+//@   ensures err == nil ==> res != nil && res == anyOf(src)
+//@   doc: "New marshals src into a new Any instance (a function of the message)."
+//@ func (*Error).detailsAsAny(e) (res, err)
+//@   tags C02
+//@   requires e != nil
+//@   assigns nothing
+//@   ensures err == nil ==> len(res) == len(e.details)   // label: as-many-details
+//@   ensures err == nil ==> (forall i int :: {seq(res)[i]} 0 <= i && i < len(e.details) ==> seq(res)[i] == (if typeis(e.details[i], "*anypb.Any") then e.details[i] else anyOf(e.details[i])))   // label: details-keep-their-order-and-identity
+//@   loop 1:
+//@     invariant 0 - 1 <= rangeindex && len(anys) == rangeindex + 1 && sl_arr(anys) != sl_arr(e.details)
+//@     invariant forall i int :: {seq(anys)[i]} 0 <= i && i <= rangeindex ==> seq(anys)[i] == (if typeis(e.details[i], "*anypb.Any") then e.details[i] else anyOf(e.details[i]))
+//@     assigns elems(anys)
 
 //@ func grpcStatusFromError(err) (res, e)
 //@   tags C02
@@ -1137,7 +1149,7 @@ package connect
 //@   ensures e == nil ==> res != nil && fresh(res)
 //@   ensures e == nil && coded(err) && codeOf(err) <= 2147483647 ==> res.Code == codeOf(err) && res.Message == errMessage(asErr(err))   // label: status-carries-code-and-message
 //@   ensures e == nil && !coded(err) ==> res.Code == 2 && res.Message == errText(err)                     // label: plain-error-is-unknown-with-its-text
-//@   ensures e == nil && coded(err) ==> len(res.Details) == len(asErr(err).details)                        // label: all-details-carried
+//@   ensures e == nil && coded(err) ==> len(res.Details) == len(asErr(err).details) && (forall i int :: {seq(res.Details)[i]} 0 <= i && i < len(asErr(err).details) ==> seq(res.Details)[i] == (if typeis(asErr(err).details[i], "*anypb.Any") then asErr(err).details[i] else anyOf(asErr(err).details[i])))   // label: all-details-carried-in-order
 //@   ensures !coded(err) ==> e == nil
 
 // grpcErrorToTrailer: exactly one grpc-status and one grpc-message whatever
